@@ -705,6 +705,102 @@ static void gen_reuse(long id) {
     S = s2; emit("M b0"); for (int i = 0; i < ops2; i++) any_op(1); emit("M b1"); S = s3; r64();
 }
 
+
+/* ---------- exhaustive small-scope streams (no PRNG): every token string / every small valid
+   document x every call sequence, up to a bound; sharded by index ---------- */
+typedef struct { int n; uint8_t b[9]; } XTok;
+static const XTok XV[] = {   /* every token kind and the width/minimality boundaries */
+    {1,{0x40}}, {1,{0x41}}, {1,{0x42}}, {1,{0x43}}, {1,{0x44}}, {2,{0x10,0x05}}, {3,{0x11,0x80,0x00}}, {3,{0x11,0x05,0x00}},
+    {3,{0x14,0x01,0x61}}, {3,{0x14,0x01,0x62}}, {2,{0x14,0x00}}, {3,{0x18,0x01,0x00}}, {4,{0x14,0x02,0x61,0x62}},
+    {9,{0x46,1,2,3,4,5,6,7,8}}, {4,{0x15,0x01,0x00,0x61}}, {3,{0x14,0x01,0x80}} };
+static const XTok XN[] = {   /* structure-rich alphabet for navigation */
+    {1,{0x40}}, {1,{0x41}}, {1,{0x42}}, {1,{0x43}}, {1,{0x44}}, {3,{0x14,0x01,0x61}}, {3,{0x14,0x01,0x62}}, {2,{0x10,0x05}} };
+/* the idx-th string (shortest first) over an alphabet of `na` tokens, wrapped in the root's BEGIN/END; 0 = past the end */
+static int xstring(Buf *d, const XTok *al, int na, int maxlen, long idx, int arr) {
+    int len = 0; long cnt = 1;
+    while (idx >= cnt) { idx -= cnt; cnt *= na; len++; if (len > maxlen) return 0; }
+    d->n = 0; put(d, arr ? 0x42 : 0x40);
+    int digs[16]; for (int i = len - 1; i >= 0; i--) { digs[i] = (int)(idx % na); idx /= na; }
+    for (int i = 0; i < len; i++) putn(d, al[digs[i]].b, (size_t)al[digs[i]].n);
+    put(d, arr ? 0x43 : 0x41); return 1;
+}
+static void xgen_verify(int shard, int nshards, int maxlen) {
+    long id = 0;
+    for (long idx = shard; ; idx += nshards) {
+        if (!xstring(&D, XV, 16, maxlen, idx, 0)) break;
+        for (int arr = 0; arr < 2; arr++) {
+            xstring(&D, XV, 16, maxlen, idx, arr);
+            for (int md = 1; md <= 3; md++) {
+                emit("C %ld", id++); emit("@0 P %d %u %u", md, 7u, garbage_flags0(md, 7u)); init_doc(0, arr, &D); emit("@0 v");
+            }
+        }
+    }
+}
+static const char *XOPS[] = { "n", "io", "ia", "lo", "la", "gr", "f 61", "f 62", "f 6162" };
+#define NXOPS 9
+static int x_valid(Buf *d, int arr) {
+    binson_parser p; binson_state st[6]; memset(&p, 0, sizeof p); memset(st, 0, sizeof st); p.state = st; p.max_depth = 6;
+    uint8_t *ex = malloc(d->n); memcpy(ex, d->b, d->n);
+    int ok = (arr ? binson_parser_init_array(&p, ex, d->n) : binson_parser_init_object(&p, ex, d->n)) && binson_parser_verify(&p);
+    free(ex); return ok;
+}
+/* all PROTOCOL-FOLLOWING call sequences of length <= K over XOPS on one valid document (enter only a container
+   that next/lookup has just returned, leave only the kind of container one is in, lookups only inside an object,
+   get_raw only on a current item, nothing after the root has been left), as an odometer that skips every
+   extension of a prefix whose last call was not allowed or was a no-op (false, nothing moved) */
+static void xnav_doc(long *id, Buf *d, int arr, int K) {
+    int seq[12]; memset(seq, 0, sizeof seq);
+    for (;;) {
+        binson_parser *p = NULL; int j; char stack[16]; int sp = 0; int cur = 0 /* 0 none, 1 scalar, 'o', 'a' */; int started = 0, emitted = 0; int bump = K - 1;
+        for (j = 0; j < K; j++) {
+            int op = seq[j]; int ok;
+            if (!started) ok = (op == (arr ? 2 : 1));
+            else if (sp == 0) ok = 0;
+            else switch (op) {
+                case 0: ok = 1; break;
+                case 1: ok = cur == 'o'; break;
+                case 2: ok = cur == 'a'; break;
+                case 3: ok = stack[sp - 1] == 'o'; break;
+                case 4: ok = stack[sp - 1] == 'a'; break;
+                case 5: ok = cur != 0; break;
+                default: ok = stack[sp - 1] == 'o'; break;
+            }
+            if (!ok || sp >= 15) { bump = j; break; }
+            if (!emitted) { emit("C %ld", (*id)++); emit("@0 P 6 %u %u", 7u, garbage_flags0(6, 7u)); init_doc(0, arr, d); p = P[0].p; emitted = 1; }
+            size_t u0 = p->buffer_used; unsigned f0 = p->current_state ? p->current_state->flags : 0;
+            emit("@0 %s", XOPS[op]);
+            if (p->error_flags) { bump = j; break; }
+            int moved = last_ret || p->buffer_used != u0 || (p->current_state ? p->current_state->flags : 0) != f0 || cur != 0;
+            switch (op) {
+                case 0: default: if (last_ret) { int t = (int)binson_parser_get_type(p); cur = t == BINSON_TYPE_OBJECT ? 'o' : t == BINSON_TYPE_ARRAY ? 'a' : 1; } else cur = 0; break;
+                case 1: case 2: if (last_ret) { stack[sp++] = op == 1 ? 'o' : 'a'; started = 1; } cur = 0; break;
+                case 3: case 4: if (last_ret) sp--; cur = 0; break;
+                case 5: if (last_ret) cur = 0; break;
+            }
+            if (!moved) { bump = j; break; }
+        }
+        /* advance the odometer: at the op that was not allowed, or at the last op executed */
+        int pos = bump;
+        for (int i = pos + 1; i < K; i++) seq[i] = 0;
+        while (pos >= 0 && ++seq[pos] >= NXOPS) { seq[pos] = 0; pos--; }
+        if (pos < 0) return;
+    }
+}
+static void xgen_nav(int shard, int nshards, int maxlen, int K) {
+    long id = 0; long docno = 0;
+    for (long idx = 0; ; idx++) {
+        if (!xstring(&D, XN, 8, maxlen, idx, 0)) break;
+        for (int arr = 0; arr < 2; arr++) {
+            xstring(&D, XN, 8, maxlen, idx, arr);
+            if (!x_valid(&D, arr)) continue;
+            if (docno++ % nshards != shard) continue;
+            Buf copy = {0}; putn(&copy, D.b, D.n);
+            xnav_doc(&id, &copy, arr, K);
+            free(copy.b);
+        }
+    }
+}
+
 static void load_corpus_case(long id, const char *path, int valid) {
     FILE *f = fopen(path, "rb"); if (!f) return; static uint8_t b[1 << 20]; size_t n = fread(b, 1, sizeof b, f); fclose(f);
     D.n = 0; putn(&D, b, n);
@@ -731,6 +827,13 @@ int main(int argc, char **argv) {
         setvbuf(fout, NULL, _IOLBF, 1 << 16);
         S = 88172645463325252ULL ^ (seed * 0x9E3779B97F4A7C15ULL); for (int i = 0; i < 8; i++) r64();
         int thorough = argc >= 8 && !strcmp(argv[7], "thorough");
+        if (prof[0] == 'x') {   /* exhaustive streams: seed = shard + 1000 * nshards, n = bound (verify: max tokens; nav: 10 * max tokens + max calls) */
+            int shard = (int)(seed % 1000), nshards = (int)(seed / 1000); if (nshards < 1) nshards = 1;
+            if (!strcmp(prof, "xverify")) xgen_verify(shard, nshards, (int)n);
+            else if (!strcmp(prof, "xnav")) xgen_nav(shard, nshards, (int)(n / 10), (int)(n % 10));
+            else { fprintf(stderr, "unknown profile %s\n", prof); return 2; }
+            fclose(fops); fclose(fout); return 0;
+        }
         for (long id = 0; id < n; id++) {
             if (!strcmp(prof, "verify")) gen_verify(id);
             else if (!strcmp(prof, "nav")) gen_nav(id, 0);
@@ -765,7 +868,7 @@ int main(int argc, char **argv) {
             if (chance(4)) D.n = rn(3);
             if (chance(2)) { D.n = 0; gen_deep(&D, 8 + (int)rn(5), 0); }
             char *h = hexs(D.b, D.n);
-            fprintf(o, "C %ld\nxd%d %d %s\n", id, 1 + (int)rn(3), chance(50) ? 0 : 200, h); free(h);
+            fprintf(o, "C %ld\nxd%d %d %s\n", id, 1 + (int)rn(5), chance(50) ? 0 : 200, h); free(h);
         }
         fclose(o); return 0;
     }
